@@ -474,6 +474,9 @@ func (ex *Ex) invoke(fr *Frame, st *State, ins ssa.Instruction, cc *ssa.CallComm
 				if av.Back != 0 && av.BackLen.Kind == kInt {
 					fmt.Sscanf(av.BackLen.Op, "%d", &n)
 				}
+				if c, isC := cc.Args[len(cc.Args)-1].(*ssa.Const); isC && c.IsNil() {
+					n = 0 // no variadic arguments
+				}
 				if n >= 0 {
 					cur := pa.T
 					es := SIface
@@ -722,6 +725,17 @@ func (ex *Ex) appendBuiltin(fr *Frame, st *State, ins ssa.Instruction, cc *ssa.C
 	la := w.SliceLen(a)
 	arr := w.SliceArr(a, es)
 	st.Assume(Ge(la, IntLit(0)))
+	if ex.FrameChk {
+		if base := truncatedAppendBase(cc.Args[0]); base != nil {
+			goal := tTrue
+			what := "append onto a truncated view overwrites only storage owned by the call"
+			if owned, why := w.sliceStorageOwned(base); !owned {
+				goal = tFalse
+				what += " -- " + why
+			}
+			ex.oblige(fr, st, ex.obName(fr, "frame", ins), "frame", []string{"C18"}, "read-only frame: "+what, goal, posOf(ins))
+		}
+	}
 	if isString(cc.Args[1].Type()) {
 		// append([]byte, string...)
 		s := ex.termOf(fr, st, bv, cc.Args[1].Type())
@@ -1022,6 +1036,14 @@ func (ex *Ex) havocLoop(fr *Frame, st *State, li *loopInfo) {
 		}
 	}
 	if anyCall {
+		// ghost state written by calls in the loop body (output written so far, printer arguments,
+		// callback count, captured stack level): unknown after an arbitrary number of iterations
+		// unless an invariant says otherwise
+		for _, gname := range []string{"$out", "$pargs", "$ncalls", "$cap", "$dom"} {
+			if cur, ok := st.ghost[gname]; ok && cur.T != nil {
+				st.ghost[gname] = SV{T: ex.FreshVar("lg"+gname, cur.T.S), Ty: cur.Ty}
+			}
+		}
 		// closures invoked in the loop may write captured cells
 		// (closures made in this frame or in any inlining frame up the chain: they can arrive
 		// here as function-typed arguments)
